@@ -1,0 +1,83 @@
+//go:build verif
+
+package npm
+
+import (
+	"context"
+	"sort"
+)
+
+// VerifTreeEntry describes one slot of the final install tree: the directory
+// path of slot names from the root (empty for the root), the installed
+// package name and version, its graph node id, whether the slot is an alias
+// slot, and the names protected at this node.
+type VerifTreeEntry struct {
+	Path           []string
+	Name           string
+	Version        string
+	ID             int
+	Alias          bool
+	Bundled        bool
+	Processed      bool
+	Protected      []string
+	AliasProtected []string
+}
+
+type verifTreeKey struct{}
+
+// VerifWithTree returns a context that makes Resolve hand its final install
+// tree to sink.
+func VerifWithTree(ctx context.Context, sink func([]VerifTreeEntry)) context.Context {
+	return context.WithValue(ctx, verifTreeKey{}, sink)
+}
+
+func verifExportTree(ctx context.Context, root *treeNode) {
+	sink, _ := ctx.Value(verifTreeKey{}).(func([]VerifTreeEntry))
+	if sink == nil {
+		return
+	}
+	var out []VerifTreeEntry
+	var walk func(n *treeNode, path []string, alias bool)
+	walk = func(n *treeNode, path []string, alias bool) {
+		e := VerifTreeEntry{
+			Path:      append([]string(nil), path...),
+			Name:      n.pkg.Name,
+			Version:   n.ver.Version,
+			ID:        int(n.id),
+			Alias:     alias,
+			Bundled:   n.bundled != nil,
+			Processed: n.processed,
+		}
+		for pk := range n.protected {
+			e.Protected = append(e.Protected, pk.Name)
+		}
+		for a := range n.aliasProtected {
+			e.AliasProtected = append(e.AliasProtected, a)
+		}
+		sort.Strings(e.Protected)
+		sort.Strings(e.AliasProtected)
+		out = append(out, e)
+		var names []string
+		for pk := range n.children {
+			names = append(names, pk.Name)
+		}
+		sort.Strings(names)
+		for _, name := range names {
+			for pk, c := range n.children {
+				if pk.Name == name {
+					walk(c, append(path, name), false)
+				}
+			}
+		}
+		names = names[:0]
+		for a := range n.alias {
+			names = append(names, a)
+		}
+		sort.Strings(names)
+		for _, a := range names {
+			walk(n.alias[a], append(path, a), true)
+		}
+	}
+	walk(root, nil, false)
+	sink(out)
+}
